@@ -232,6 +232,41 @@ def climatology_test (periodOf : Period → Int → Int) (config : List Member) 
   let zinp := ofInput zinp
   let mut flag_arr ← climatology_check periodOf config tinp inp zinp
   return flag_arr
+
+def attenuated_signal_test (inp : List V) (tinp : List Int) (suspect_threshold : Rat) (fail_threshold : Rat) (test_period : Option Rat) (min_obs : Option Nat) (min_period : Option Rat) (check_type : String) : Res := do
+  let mut window_func := WinFunc.std
+  let mut check_func := CheckFunc.std
+  if check_type = "std" then
+    window_func := WinFunc.std
+    check_func := CheckFunc.std
+  else if check_type = "range" then
+    window_func := WinFunc.ptp
+    check_func := CheckFunc.ptp
+  else
+    throw .value
+  let inp := ofInput inp
+  let mut flag_arr := List.replicate inp.length Flag.unknown
+  if inp.length == 0 then
+    return flag_arr
+  let mut check_val : List Stat := []
+  if let some test_period := test_period then
+    let mut min_periods : Option Nat := none
+    if let some min_obs := min_obs then
+      min_periods := some min_obs
+    else if let some min_period := min_period then
+      let mut time_interval := medianStep tinp
+      min_periods := some (ratioFloor min_period time_interval)
+    else
+      min_periods := none
+    check_val := rollingApply window_func min_periods inp tinp test_period
+  else
+    check_val := List.replicate flag_arr.length (wholeApply check_func inp)
+  flag_arr := setWhere flag_arr (statGe check_val suspect_threshold) .good
+  flag_arr := setWhere flag_arr (statLt check_val suspect_threshold) .suspect
+  flag_arr := setWhere flag_arr (statIsNan check_val) .unknown
+  flag_arr := setWhere flag_arr (statLt check_val fail_threshold) .fail
+  flag_arr := setWhere flag_arr (maskOf inp) .missing
+  return flag_arr
 -- END GENERATED
 
 end IoosQc.NpSrc
